@@ -26,7 +26,7 @@ BUDGET = {
 REQUIRED_PROBES = ["explicit_rule", "implicit_rule", "no_header_expected", "override_same_key", "nested_field",
                    "value_needs_escaping", "non_matching_value", "empty_value", "header_on_retry_attempt",
                    "header_on_later_page", "async_header", "extra_trailing_segments", "no_template_param", "rest_header", "rest_header_on_later_page", "header_on_lro",
-                   "header_on_sstream", "shared_metadata_list_later_call", "custom_http_pattern"]
+                   "header_on_sstream", "shared_metadata_list_later_call", "custom_http_pattern", "header_on_fetch_after_resume"]
 SEGS = ["p1", "my-proj", "a b", "é", "x%y", "k=v&z", "seg.1", "~t", "q+r", "UPPER"]
 
 
@@ -241,6 +241,8 @@ def gen_op(spec, rng, codec, fs, s, m, cls, oid, client):
             from .. import simhttp
             op["faults"] = {k: [o for o in v if o["code"] in simhttp.ROUND_TRIP] for k, v in op["faults"].items()}
             op["faults"] = {k: v for k, v in op["faults"].items() if v}
+        if op["faults"] and rng.random() < 0.6:
+            op["resume"] = True        # the caller catches the error of a page fetch and iterates the SAME pager again
         val = op["request"]
     else:
         val = values.rand_valuation(rng, codec.desc(m["input"]), 0, 2, 0.4)
@@ -330,9 +332,14 @@ def judge(spec, scenario, history):
             return [{"rule": "call_failed", "op": oid, "method": op["method"], "msg": f"{scenario['client']} call raised "
                      f"{oc.get('cls')}: {oc.get('msg')}"}], probes
     first_attempt = {}
+    resumed = {}
     for e in history:
+        if e["k"] == "resumed":
+            resumed[e["op"]] = e["seq"]
         if e["k"] != "attempt" or e.get("op") not in ops:
             continue
+        if e["op"] in resumed:
+            _bump(probes, "header_on_fetch_after_resume")
         op = ops[e["op"]]
         fs, s, m = find_method(spec, op["service"], op["method"])
         path = f"/{fs['package']}.{s['name']}/{m['name']}"
